@@ -14,7 +14,9 @@ RULE = ("months chosen so that all 28 month shapes (length 28..31 x weekday of t
         "nth_of x 3 units x 7 weekdays x n in 1..6 (month) / 1..15 (quarter) / 1..54 (year); Date and DateTime (naive, UTC, fixed offsets "
         "-23:59..+23:59; random times of day); tz-database zones: every day with a skipped local midnight in the sampled zones (found with "
         "zoneinfo) x instances on/around that day and elsewhere in its month/quarter/year x fold 0/1 x times 00:00, inside the gap, noon "
-        "(oracle only, no model); n <= 0 and invalid weekdays as robustness streams.  A case is non-trivial when it is a distinct "
+        "(oracle only, no model); n <= 0 and invalid weekdays as robustness streams; the `nth-max-year` stream is deterministic: year 9999, "
+        "the occurrences whose place would lie after 9999-12-31 (n just inside / just beyond the month, quarter, year, and n = 100, 400), "
+        "Date and DateTime -- the region of the repaired finding nth-of-overflow-at-max-year.  A case is non-trivial when it is a distinct "
         "(function, arguments) tuple; each composite case carries 16..378 calls of the public API, every one compared with the Coq model "
         "(both backends) and with datetime.date arithmetic.")
 EXHAUSTIVE = {"quick": False, "thorough": False}
@@ -190,8 +192,32 @@ def cases(tier, seed):
         for u in (0, 1, 2):
             n = rnd.choice([55, 100, 400])
             out.append({"stream": "nth-large", "fn": "d_nth", "args": [u, y, m, d, [rnd.randrange(0, 7)], [n]]})
+    out += _max_year_cases()
     # tz-database zones (oracle only)
     out += _zone_cases(tier, seed, rnd)
+    return out
+
+
+def _max_year_cases():
+    """Deterministic, every run: nth_of in year 9999 where the n-th occurrence would fall after 9999-12-31, the last date there is.
+    Formerly finding nth-of-overflow-at-max-year (OverflowError from the dt.next() loop instead of PendulumException); the former
+    witnesses come first.  Ordinary cases: the model, the oracle and the implementation must agree on PendulumException beyond the
+    unit and on the date inside it (e.g. the 14th Friday of the last quarter IS 9999-12-31)."""
+    out = []
+    st = "nth-max-year"
+    all7 = list(range(7))
+    insts = [(9999, 12, 1), (9999, 1, 1), (9999, 11, 15), (9999, 12, 31), (9999, 10, 1), (9999, 12, 25), (9999, 2, 28)]
+    for (y, m, d) in insts:
+        out.append({"stream": st, "fn": "d_nth", "args": [0, y, m, d, all7, [4, 5, 6, 7, 100]]})
+        out.append({"stream": st, "fn": "d_nth", "args": [1, y, m, d, all7, [13, 14, 15, 16, 100]]})
+        out.append({"stream": st, "fn": "d_nth", "args": [2, y, m, d, all7, [52, 53, 54, 55, 400]]})
+    zs = [0, 1, 100000 + 86399, 100000 - 86399, 100000 + 19800]
+    for i, (y, m, d) in enumerate(insts):
+        tod = [0, 86399999999, 43200000000][i % 3]
+        z = zs[i % len(zs)]
+        out.append({"stream": st, "fn": "t_nth", "args": [0, y, m, d, tod, z, all7, [4, 5, 6, 100]]})
+        out.append({"stream": st, "fn": "t_nth", "args": [1, y, m, d, tod, z, all7, [13, 14, 15, 100]]})
+        out.append({"stream": st, "fn": "t_nth", "args": [2, y, m, d, tod, z, all7, [52, 53, 54, 400]]})
     return out
 
 
@@ -723,7 +749,9 @@ def _judge(c, backend, r):
               f"(unit={UNITS[u]}, n={n}, wd={wd}, keep_time={bool(keep)}): {why}"
         fid = None
         if op == 4 and n >= 1 and exp[0] == "raise" and got[0] == 1 and got[1] == 3 and y == 9999:
-            # the loop of dt.next() walks beyond 9999-12-31 before the unit check
+            # (finding now FIXED: classifying it here makes a regression show up under its id, and the runner reports a
+            # reproduced fixed finding as a VIOLATION)  the loop of dt.next() walks beyond 9999-12-31 before the unit check
+            # and the OverflowError of the date arithmetic escapes from nth_of
             first = next(x for x in _unit_days(u, inst) if x.weekday() == wd)
             if first.toordinal() + 7 * (n - 1) > MAXORD:
                 fid = "nth-of-overflow-at-max-year"
@@ -830,14 +858,17 @@ def known(c, backend, r):
 
 LEVEL_TEXT = ("Machine-checked Coq theorems about an executable model of Date/DateTime next, previous, first_of, last_of, nth_of "
               "(all years up to the 1..9999 range check, 7 weekdays, every n, 3 units): closed forms in ordinals, nearest/least/greatest "
-              "characterisations, loop fuel 7 suffices, nth_of = first + 7(n-1) inside the unit else PendulumException (refuted at the year-9999 "
-              "edge: OverflowError), DateTime variants equal the Date ones with time 00:00 (kept iff keep_time) and the zone kept; the model is tied "
+              "characterisations, loop fuel 7 suffices, nth_of = first + 7(n-1) inside the unit else PendulumException and no other exception, "
+              "at full strength for every date of years 1..9999 (the year-9999 OverflowError defect is repaired; a regression is reported as a "
+              "violation), DateTime variants equal the Date ones with time 00:00 (kept iff keep_time) and the zone kept; the model is tied "
               "to /repo by a boundary-heavy correspondence run in both backends; an independent datetime.date oracle incl. tz-database zones "
               "with skipped midnights.")
 DESIGN_REF = "DESIGN.md section 4 C16"
 LEVEL_NOTE = ("Trusted: Coq kernel+VM, the hand model Model/Weekday.v (tied by correspondence every run, both backends; next/previous also by the translation "
               "Gen/WeekdayNav.v = model, Proofs/C16Gen.v), Spec/Cal.v as a model of "
               "CPython's datetime/calendar (validated every run), extraction+driver (cross-checked with vm_compute). DateTime in tz-database zones "
-              "with transitions is covered by the oracle only (no model).")
+              "with transitions is covered by the oracle only (no model). Finding nth-of-overflow-at-max-year is fixed (nth_of catches the "
+              "OverflowError of the stepping loop): its former _refuted/_partial theorems are replaced by nth_of_raises_pendulum_exception, "
+              "nth_of_raises_nothing_else, nth_of_returns_nth_or_raises; the deterministic nth-max-year stream keeps the region exercised.")
 TECHNIQUE = ("Coq proof (lia with mod 7, induction on loop fuel / n, calendar bijection lemmas) over a hand model whose next/previous bodies are "
              "proved equal to the translation regenerated from /repo each run + differential correspondence + stdlib oracle")
